@@ -136,6 +136,13 @@ func runC15(c *Ctx) {
 	if behaviour == "accept-hrr" || behaviour == "reject-hrr" {
 		scfg.CurvePreferences = []tls.CurveID{tls.CurveP384}
 		stdcfg.CurvePreferences = []stdtls.CurveID{stdtls.CurveP384}
+	} else if ch.Bool(40, "server-prefers-p256") {
+		// a server that accepts P-256 only: fingerprints that send a second classical share
+		// (Firefox) are answered on it without a HelloRetryRequest, the others with one
+		// (Config.CurvePreferences filters, it does not order: only P-256 is left)
+		scfg.CurvePreferences = []tls.CurveID{tls.CurveP256}
+		stdcfg.CurvePreferences = []stdtls.CurveID{stdtls.CurveP256}
+		c.Probe("server-prefers-p256")
 	}
 	// the config list handed to the client: the usable config alone, followed by further configs, or
 	// behind an entry of an unknown version (the first usable one is picked; its own bytes are the HPKE info)
@@ -247,6 +254,7 @@ func runC15(c *Ctx) {
 			c.Violate(fmt.Sprintf("ech-not-accepted hrr=%v %s", hrrSeen, idKind(idi)), "%s: client ECHAccepted=%v server ECHAccepted=%v", c.R.Class, o.CState.ECHAccepted, o.S.ECHAccepted)
 			return
 		}
+		c.Probe(fmt.Sprintf("accepted-on-group=%d hrr=%v", o.S.Curve, hrrSeen))
 		if o.S.ServerName != secret || o.CState.ServerName != secret {
 			c.Violate("ech-server-name-mismatch "+idKind(idi), "%s: client reports %q, server saw inner name %q, want %q", c.R.Class, o.CState.ServerName, o.S.ServerName, secret)
 		}
